@@ -106,6 +106,12 @@ def _work_chunk(args):
                                     "detail": v["detail"], "plan": r["plan"]})
             if r.get("sample") is not None and len(agg["samples"]) < 2:
                 agg["samples"].append(r["sample"])
+    from . import hermetic
+    m0 = hermetic.mutations
+    hermetic.restore()
+    if hermetic.mutations or hermetic.mutations != m0:
+        bump(agg["probes"], "module-state-mutated-by-a-run", hermetic.mutations)
+        hermetic.mutations = 0
     agg["shapes"] = list(agg["shapes"])
     agg["states"] = list(agg["states"])
     return agg
